@@ -76,6 +76,17 @@ class Builds(LibModel):
             return [(st, b)]
         return super().call(eng, st, f, args, kwargs, node)
 
+    def f_isinstance(self, eng, st, args, kwargs, node):
+        if args and isinstance(args[0], Obj) and args[0].kind == 'arg':
+            # what kind of object an argument is is not known: a type test on it may go either way
+            return [(st, ZV(z3.FreshConst(Z.B, 'argument_type_test'), 'bool'))]
+        return super().f_isinstance(eng, st, args, kwargs, node)
+
+    def getattr(self, eng, st, recv, name):
+        if isinstance(recv, Obj) and recv.kind == 'arg' and name.startswith('_') and name.endswith('_') and not name.startswith('__'):
+            return [(st, Obj('built', {'fn': 'attr', 'args': [recv, C(name)], 'kwargs': {}}))]
+        return super().getattr(eng, st, recv, name)
+
     def on_exit(self, eng, o):
         name = self.qual.split(':')[1]
         if o.sig != RETURN:
